@@ -196,9 +196,14 @@ func (p *player) doWrite(s ScStep) {
 		rm.TimeBootMs = uint32(s.Tag)
 		m = rm
 	}
+	isFrame := strings.HasPrefix(s.Kind, "Frame")
+	fv := p.sc.Conf.Version
+	if isFrame && s.Bad == "" && s.Tag%3 == 0 {
+		fv = 3 - fv // a forwarded frame has the version it was received with, not the one this node writes
+	}
 	if s.Raw {
 		if rw := mustRW(findDialect("common")).GetMessage(252); rw != nil {
-			m = rw.Write(m, p.sc.Conf.Version == 2)
+			m = rw.Write(m, fv == 2) // an encoded message is encoded for the frame that carries it
 		}
 	}
 	switch s.Bad {
@@ -207,12 +212,7 @@ func (p *player) doWrite(s ScStep) {
 	case "v1_big": // a dialect message whose id does not fit a v1 frame
 		m = &message.MessageRaw{ID: 300, Payload: []byte{byte(s.Tag), byte(s.Tag >> 8), byte(s.Tag >> 16), 0, 1}}
 	}
-	isFrame := strings.HasPrefix(s.Kind, "Frame")
 	var fr frame.Frame
-	fv := p.sc.Conf.Version
-	if isFrame && s.Bad == "" && s.Tag%3 == 0 {
-		fv = 3 - fv // a forwarded frame has the version it was received with, not the one this node writes
-	}
 	if isFrame {
 		if fv == 1 {
 			fr = &frame.V1Frame{SequenceNumber: byte(s.Tag), SystemID: 77, ComponentID: 88, Message: m}
